@@ -151,7 +151,20 @@ where
 
     writeln!(writer, "#[derive(Debug, Default, YaSerialize, YaDeserialize)]")?;
     if let Some(tns) = &target_namespace {
-        let namespaces = format!("\"{}\" = \"{}\"", tns.abbreviation, tns.namespace);
+        // members inherited from, or referring to, another schema carry that schema's prefix: declare it as well
+        let mut xmlns = vec![(tns.abbreviation.as_str(), tns.namespace.as_str())];
+        for field in fields {
+            if let Some(ns) = &field.target_namespace {
+                if !xmlns.contains(&(ns.abbreviation.as_str(), ns.namespace.as_str())) {
+                    xmlns.push((ns.abbreviation.as_str(), ns.namespace.as_str()));
+                }
+            }
+        }
+        let namespaces = xmlns
+            .iter()
+            .map(|(k, v)| format!("\"{k}\" = \"{v}\""))
+            .collect::<Vec<String>>()
+            .join(", ");
         writeln!(
             writer,
             "#[yaserde(prefix = \"{}\", namespaces = {{{}}}, rename = \"{}\")]",
